@@ -604,3 +604,56 @@ impl<'a> Gen<'a> {
         }
     }
 }
+
+
+/// Any value of any kind (C02 / C18): extremes, NaN, infinities, empty and non-ASCII text, nested
+/// collections, durations and timestamps up to chrono's limits, function values.
+pub fn gen_any_value(rng: &mut Rng, depth: usize, with_fn: bool) -> Value {
+    let k = if depth == 0 { rng.below(11) } else { rng.below(14) };
+    match k {
+        0 => Value::Int(*rng.pick(INT_POOL)),
+        1 => Value::UInt(*rng.pick(UINT_POOL)),
+        2 => Value::Float(*rng.pick(&[f64::NAN, f64::INFINITY, f64::NEG_INFINITY, 0.0, -0.0, 1.5, -2.25, 1e300, 5e-324, 9007199254740993.0, 1.8446744073709552e19])),
+        3 => Value::String(Arc::new(rng.pick(STR_POOL).to_string())),
+        4 => Value::Bytes(Arc::new(rng.pick(BYTES_POOL).to_vec())),
+        5 => Value::Bool(rng.chance(1, 2)),
+        6 => Value::Null,
+        7 => {
+            let ds = [chrono::Duration::zero(), chrono::Duration::nanoseconds(1), chrono::Duration::nanoseconds(-1), chrono::Duration::seconds(5400),
+                      chrono::Duration::nanoseconds(i64::MAX), chrono::Duration::nanoseconds(i64::MIN + 1), chrono::Duration::MAX, chrono::Duration::MIN,
+                      chrono::Duration::milliseconds(1500), chrono::Duration::seconds(-86400 * 365 * 300)];
+            Value::Duration(*rng.pick(&ds))
+        }
+        8 => {
+            let ts = ["0001-01-01T00:00:00Z", "9999-12-31T23:59:59.999999999Z", "1970-01-01T00:00:00Z", "2024-02-29T12:30:45.123456789+05:30",
+                      "1969-12-31T23:59:59.999-12:00", "2038-01-19T03:14:08+14:00", "1582-10-15T00:00:00Z", "0001-01-01T00:00:00+14:00", "9999-12-31T23:59:59-12:00"];
+            let tsv: &str = *rng.pick(&ts); let mut t = chrono::DateTime::parse_from_rfc3339(tsv).unwrap();
+            if rng.chance(1, 6) {
+                t = chrono::DateTime::<chrono::Utc>::MAX_UTC.fixed_offset();
+            } else if rng.chance(1, 6) {
+                t = chrono::DateTime::<chrono::Utc>::MIN_UTC.fixed_offset();
+            }
+            Value::Timestamp(t)
+        }
+        9 if with_fn => Value::Function(Arc::new(rng.pick(&["size", "nofn", "t"]).to_string()), None),
+        9 | 10 => Value::Int(rng.range(-5, 5)),
+        11 | 12 => {
+            let n = rng.below(4);
+            Value::List(Arc::new((0..n).map(|_| gen_any_value(rng, depth - 1, with_fn)).collect()))
+        }
+        _ => {
+            let n = rng.below(4);
+            let mut m = HashMap::new();
+            for _ in 0..n {
+                let k = match rng.below(4) {
+                    0 => Key::Int(*rng.pick(&[0i64, 1, -1, i64::MAX, i64::MIN])),
+                    1 => Key::Uint(*rng.pick(&[0u64, 1, u64::MAX])),
+                    2 => Key::Bool(rng.chance(1, 2)),
+                    _ => Key::String(Arc::new(rng.pick(&["a", "b", "k1", "1", "true", "", "é"]).to_string())),
+                };
+                m.insert(k, gen_any_value(rng, depth - 1, with_fn));
+            }
+            Value::Map(Map { map: Arc::new(m) })
+        }
+    }
+}
